@@ -516,23 +516,7 @@ M("c06-range-check-weak", "C06", [(CLS, """        if ord(start) >= ord(end):
 M("c06-anyfrom-accepts-no-args", "C06", [(CLS, """        if len(chars) == 0:
             message = f"No characters were provided to \\"{__class__.__name__}\\"."
             raise _ex.NotEnoughArgumentsException(message)
-        for c in chars:
-            if isinstance(c, (str, _pre.Pregex)):
-                if len(str(c).replace("\\\\", "", 1) if isinstance(c, _pre.Pregex) else c) > 1: 
-                    message = f"Argument \\"{c}\\" is neither a string nor a token."
-                    raise _ex.InvalidArgumentTypeException(message)
-            else:
-                message = f"Argument \\"{c}\\" is neither a string nor a token."
-                raise _ex.InvalidArgumentTypeException(message)
-        chars = tuple((f"\\\\{c}" if""", """        for c in chars:
-            if isinstance(c, (str, _pre.Pregex)):
-                if len(str(c).replace("\\\\", "", 1) if isinstance(c, _pre.Pregex) else c) > 1: 
-                    message = f"Argument \\"{c}\\" is neither a string nor a token."
-                    raise _ex.InvalidArgumentTypeException(message)
-            else:
-                message = f"Argument \\"{c}\\" is neither a string nor a token."
-                raise _ex.InvalidArgumentTypeException(message)
-        chars = tuple((f"\\\\{c}" if""")], rule="R-ARGS")
+""", "", -1)], rule="R-ARGS")
 M("c06-benign-respelled-constant", "C06", [(CLS, "super().__init__('[a-zA-Z]', is_negated=False)", "super().__init__('[A-Za-z]', is_negated=False)"),
                                           (CLS, "super().__init__('[^a-zA-Z]', is_negated=True)", "super().__init__('[^\\u0041-\\u005aa-z]', is_negated=True)")], expect="silent")
 M("c06-benign-escape-more", "C06", [(CLS, "_to_escape = ('\\\\', '^', '[', ']', '-', '/', '$')", "_to_escape = ('\\\\', '^', '[', ']', '-', '/', '$', '&')")], expect="fire")  # '&' is not readable after a backslash: R_esc >= W
